@@ -40,9 +40,12 @@ unsigned char wit_byte[WIT_NB][WIT_NBYTES];
 long long wit_val[WIT_NV];
 #define WIT_CAP(n) __CPROVER_assume((n) <= WIT_NBYTES)
 #define WIT(slot, expr) (wit_val[slot] = (long long)(expr))
+#define WIT_B1(slot, ptr, n, i) if((unsigned long)(i) < (unsigned long)(n)) wit_byte[slot][i] = ((const unsigned char *)(ptr))[i];
 #define WIT_BUF(slot, ptr, n) do { wit_len[slot] = (n); \
-  for(unsigned long wi_ = 0; wi_ < WIT_NBYTES; wi_++) \
-    if(wi_ < (unsigned long)(n)) wit_byte[slot][wi_] = ((const unsigned char *)(ptr))[wi_]; } while(0)
+  WIT_B1(slot,ptr,n,0) WIT_B1(slot,ptr,n,1) WIT_B1(slot,ptr,n,2) WIT_B1(slot,ptr,n,3) WIT_B1(slot,ptr,n,4) WIT_B1(slot,ptr,n,5) \
+  WIT_B1(slot,ptr,n,6) WIT_B1(slot,ptr,n,7) WIT_B1(slot,ptr,n,8) WIT_B1(slot,ptr,n,9) WIT_B1(slot,ptr,n,10) WIT_B1(slot,ptr,n,11) \
+  WIT_B1(slot,ptr,n,12) WIT_B1(slot,ptr,n,13) WIT_B1(slot,ptr,n,14) WIT_B1(slot,ptr,n,15) WIT_B1(slot,ptr,n,16) WIT_B1(slot,ptr,n,17) \
+  WIT_B1(slot,ptr,n,18) WIT_B1(slot,ptr,n,19) WIT_B1(slot,ptr,n,20) WIT_B1(slot,ptr,n,21) WIT_B1(slot,ptr,n,22) WIT_B1(slot,ptr,n,23) } while(0)
 #else
 #define WIT_CAP(n) ((void)0)
 #define WIT(slot, expr) ((void)0)
